@@ -37,6 +37,26 @@ def projColumns : UOp → Cols
   | .proj c => c
   | _ => []
 
+/-- Fields that one operation class has (only evaluated under the corresponding `isinstance` test). -/
+def calcTag : UOp → Tag
+  | .calc t _ => t
+  | _ => default
+def calcExpr : UOp → Expr
+  | .calc _ e => e
+  | _ => default
+def selPred : UOp → Pred
+  | .sel p => p
+  | _ => default
+def sliceStart : UOp → Nat
+  | .slice s _ => s
+  | _ => 0
+def sliceStop : UOp → Option Nat
+  | .slice _ e => e
+  | _ => none
+def sortTerms : UOp → List SortTerm
+  | .sort ts => ts
+  | _ => []
+
 /-- `upstream.then(self)` as used by `Slice.simplify` / `Sort.simplify`, wrapped as the result of
 `simplify` (`Slice.then` can raise through the `Slice` constructor). -/
 def thenOf (upstream self : UOp) : Except Err Simplified :=
